@@ -91,13 +91,16 @@ type Interp struct {
 	counter    int
 	candidates map[*ssa.BasicBlock][]*ssa.Phi
 	candFailed map[*ssa.BasicBlock]bool
+	pureCache  map[*ssa.Function]int
+	pureForms  map[string]lin.Form
 }
 
 // New creates an interpreter.
 func New(p *load.Program, h Hooks) *Interp {
 	return &Interp{P: p, Hooks: h, lo: map[string]int64{}, hi: map[string]int64{}, SymLo: map[string]int64{}, SymHi: map[string]int64{},
 		summaries: map[*ssa.Function]*Summary{}, inProgress: map[*ssa.Function]bool{}, MaxPaths: 300000, MaxOut: 48,
-		candidates: map[*ssa.BasicBlock][]*ssa.Phi{}, candFailed: map[*ssa.BasicBlock]bool{}}
+		candidates: map[*ssa.BasicBlock][]*ssa.Phi{}, candFailed: map[*ssa.BasicBlock]bool{},
+		pureCache: map[*ssa.Function]int{}, pureForms: map[string]lin.Form{}}
 }
 
 // FieldInv is a type-level field invariant.
@@ -1551,7 +1554,7 @@ func (st *State) makeOutcome(f *ssa.Function, res []Val) *Outcome {
 		}
 		if strings.HasPrefix(k, "pure:") {
 			ok := true
-			for _, f := range pureKeyForms(k) {
+			for _, f := range st.ip.pureKeyForms(k) {
 				for _, s := range f.Syms() {
 					if !vis(s) && !symsOf[s] {
 						ok = false
